@@ -92,14 +92,17 @@ def fill(det, init, rows, cols):
     ph = init.get("photon")
     if ph is not None:
         if ph["mode"] == "2d":
-            det.photon.array = _f(ph["vals"], sh)
+            det.photon.array = _f(ph["vals"], sh, ph.get("dtype", "float64"))
         else:
             wl = [float(x) for x in ph["wl"]]
-            det.photon.array_3d = xr.DataArray(_f(ph["vals"], (len(wl),) + sh), dims=["wavelength", "y", "x"],
-                                               coords={"wavelength": wl})
+            wlc = ("wavelength", wl, dict(ph["wl_attrs"])) if ph.get("wl_attrs") else wl
+            det.photon.array_3d = xr.DataArray(_f(ph["vals"], (len(wl),) + sh, ph.get("dtype", "float64")),
+                                               dims=["wavelength", "y", "x"], coords={"wavelength": wlc},
+                                               attrs=dict(ph.get("attrs") or {}), name=ph.get("name"))
     for b in ("pixel", "signal", "phase"):
         if init.get(b) is not None:
-            getattr(det, b).array = _f(init[b], sh)
+            v = init[b]
+            getattr(det, b).array = _f(v["vals"], sh, v["dtype"]) if isinstance(v, dict) else _f(v, sh)
     if init.get("image") is not None:
         det.image.array = _f(init["image"]["vals"], sh, init["image"].get("dtype", "uint16"))
     if init.get("charge_array") is not None:
@@ -205,14 +208,35 @@ def handle(p):
 
         fn = _fname()
         try:
-            det.save(fn)
-            out["file"] = P.canon_detector(det)
-            running = build(p["running"])
             group = p.get("group", "photon_collection")
+            if p.get("save") == "model":
+                # the file is written by the save_detector MODEL at the end of a pipeline that first fills an
+                # (emptied) detector of the same kind; what was saved = what a probe just before save_detector saw
+                saver = build(dict(p["spec"], init={}))
+                P.reset()
+                run_exposure(saver, make_pipeline({p.get("save_group", group): [
+                    {"func": "verif_probes_c18.fill_from_spec", "name": "fill", "arguments": {"init": p["spec"].get("init", {})}},
+                    {"func": "verif_probes_c18.record_canon", "name": "probe_s", "arguments": {"tag": "saved"}},
+                    {"func": "pyxel.models.save_detector", "name": "save", "arguments": {"filename": fn}}]}),
+                    make_readout(times=[1.0]))
+                out["file"] = [t for t in P.TRACE if t["tag"] == "saved"][-1]["canon"]
+                try:
+                    out["file_back"] = P.canon_detector(Detector.load(fn))
+                except Exception as ex:  # noqa: BLE001
+                    out["file_back"] = _exc(ex, "load")
+            else:
+                det.save(fn)
+                out["file"] = P.canon_detector(det)
+            running = build(p["running"])
             models = [{"func": "pyxel.models.load_detector", "name": "load", "arguments": {"filename": fn}},
                       {"func": "verif_probes_c18.record_canon", "name": "probe", "arguments": {"tag": "after"}}]
             if p.get("probe_before"):
                 models.insert(0, {"func": "verif_probes_c18.record_canon", "name": "probe0", "arguments": {"tag": "before"}})
+            if p.get("fill_running"):
+                # the running detector is emptied when the exposure starts: fill it INSIDE the pipeline, so that
+                # load_detector has something to replace
+                models.insert(0, {"func": "verif_probes_c18.fill_from_spec", "name": "fill_r",
+                                  "arguments": {"init": p["running"].get("init", {})}})
             P.reset()
             res = run_exposure(running, make_pipeline({group: models}), make_readout(times=[1.0]))
             seen = [t for t in P.TRACE if t["tag"] == "after"]
